@@ -118,6 +118,19 @@ type serverConn struct {
 
 	closer chan struct{}
 
+	// resetStrms holds the recently closed streams that we reset ourselves, as
+	// opposed to the ones the peer finished or reset. Frames the peer had
+	// already sent when our RST_STREAM reached it are to be ignored, not
+	// answered with a connection error (RFC 7540 5.1). It is owned by the
+	// stream loop and pruned together with its closed-stream memory.
+	resetStrms map[uint32]struct{}
+
+	// discardRest and discardFields carry a header block that belongs to no
+	// stream (refused, or reset while the block was still arriving) from one
+	// of its frames to the next, the way a stream does for its own.
+	discardRest   []byte
+	discardFields int
+
 	debug  bool
 	logger fasthttp.Logger
 }
@@ -444,6 +457,8 @@ func (sc *serverConn) handleStreams() {
 	closedRing := make([]uint32, 0, closedStrmsCap)
 	closedOldest := 0
 
+	sc.resetStrms = make(map[uint32]struct{})
+
 	markClosed := func(id uint32) {
 		if _, ok := closedStrms[id]; ok {
 			return
@@ -453,6 +468,7 @@ func (sc *serverConn) handleStreams() {
 			closedRing = append(closedRing, id)
 		} else {
 			delete(closedStrms, closedRing[closedOldest])
+			delete(sc.resetStrms, closedRing[closedOldest])
 			closedRing[closedOldest] = id
 			closedOldest = (closedOldest + 1) % closedStrmsCap
 		}
@@ -484,6 +500,14 @@ func (sc *serverConn) handleStreams() {
 
 		markClosed(strmID)
 		strms.Del(strmID)
+
+		// The peer may still be in the middle of this stream's header block. The
+		// CONTINUATION frames that finish it have to go through the decoder
+		// even though nobody wants the fields any more.
+		if !strm.headersFinished {
+			sc.discardRest = append(sc.discardRest[:0], strm.previousHeaderBytes...)
+			sc.discardFields = strm.blockFields
+		}
 
 		sc.closeBodyStream(strm)
 
@@ -715,10 +739,33 @@ loop:
 					// treated as connection errors (RFC 7540 5.1). Anything else
 					// (HEADERS, DATA, CONTINUATION) on a closed stream is an
 					// error.
+					_, byUs := sc.resetStrms[fr.Stream()]
+
 					switch fr.Type() {
 					case FramePriority, FrameWindowUpdate, FrameResetStream:
+					case FrameHeaders, FrameContinuation:
+						// Nobody wants the fields, but the dynamic table does.
+						if err := sc.decodeHeaderBlock(fr, &sc.discardRest, &sc.discardFields, nil); err != nil {
+							sc.writeError(nil, err)
+							break loop
+						}
+
+						if !byUs {
+							sc.writeGoAway(fr.Stream(), StreamClosedError, "frame on closed stream")
+						}
+					case FrameData:
+						if !byUs {
+							sc.writeGoAway(fr.Stream(), StreamClosedError, "frame on closed stream")
+							break
+						}
+
+						// Sent before our RST_STREAM arrived: ignored, but it did
+						// use the connection window, which the peer needs back.
+						sc.consumeConnWindow(fr.Len())
 					default:
-						sc.writeGoAway(fr.Stream(), StreamClosedError, "frame on closed stream")
+						if !byUs {
+							sc.writeGoAway(fr.Stream(), StreamClosedError, "frame on closed stream")
+						}
 					}
 
 					continue
@@ -746,7 +793,17 @@ loop:
 						}
 					}
 
+					// The header block was encoded against the dynamic table
+					// whether or not we take the stream, and the frames that
+					// follow on it are the peer's to send until it hears of the
+					// refusal.
+					if err := sc.decodeHeaderBlock(fr, &sc.discardRest, &sc.discardFields, nil); err != nil {
+						sc.writeError(nil, err)
+						break loop
+					}
+
 					sc.writeReset(fr.Stream(), RefusedStreamError)
+					markClosed(fr.Stream())
 
 					continue
 				}
@@ -902,6 +959,16 @@ func (sc *serverConn) consumeRecvWindow(strm *Stream, fr *FrameHeader, n int) {
 		sc.writeWindowUpdate(strm.ID(), n)
 	}
 
+	sc.consumeConnWindow(n)
+}
+
+// consumeConnWindow is the connection half of consumeRecvWindow, for DATA that
+// counts against the connection window without belonging to a stream we keep.
+func (sc *serverConn) consumeConnWindow(n int) {
+	if n <= 0 {
+		return
+	}
+
 	sc.currentWindow -= int32(n)
 	if sc.currentWindow < sc.maxWindow/2 {
 		inc := sc.maxWindow - sc.currentWindow
@@ -933,6 +1000,10 @@ func (sc *serverConn) writeReset(strm uint32, code ErrorCode) {
 	r.SetCode(code)
 
 	sc.write(fr)
+
+	if sc.resetStrms != nil {
+		sc.resetStrms[strm] = struct{}{}
+	}
 
 	if sc.debug {
 		sc.logger.Printf(
@@ -1162,30 +1233,43 @@ func (sc *serverConn) handleHeaderFrame(strm *Stream, fr *FrameHeader) error {
 		return NewGoAwayError(ProtocolError, "stream that depends on itself")
 	}
 
+	return sc.decodeHeaderBlock(fr, &strm.previousHeaderBytes, &strm.blockFields, strm)
+}
+
+// decodeHeaderBlock runs the fragment fr carries through the HPACK decoder,
+// joined to whatever the previous frame of the block left over in *rest, and
+// adds the fields to strm's request. *nfields counts the fields of the block so
+// far, across frames.
+//
+// The whole fragment is decoded whatever happens to the request. A field that
+// makes the request malformed is remembered and reported at the end, and with a
+// nil strm the fields are dropped: the block may belong to a stream that was
+// refused or has already been reset, but the peer encoded it against the
+// dynamic table all the same, and every entry it adds has to land in ours or
+// the next request decodes to different fields (RFC 7540 4.3).
+func (sc *serverConn) decodeHeaderBlock(fr *FrameHeader, rest *[]byte, nfields *int, strm *Stream) error {
 	// Only a HEADERS or PUSH_PROMISE frame opens a header block. A dynamic table
 	// size update belongs at the start of the block, which is not the same as
 	// the start of a frame: the frame boundary can fall inside the update or
 	// right after it, so what counts is that no field has been decoded yet.
 	if fr.Type() != FrameContinuation {
-		strm.blockFields = 0
+		*nfields = 0
 	}
 
-	// Appending to the stream's own buffer and handing it back keeps the
+	// Appending to the caller's own buffer and handing it back keeps the
 	// capacity across frames instead of allocating a header block every time.
-	b := append(strm.previousHeaderBytes, fr.Body().(FrameWithHeaders).Headers()...)
-	strm.previousHeaderBytes = b[:0]
+	b := append(*rest, fr.Body().(FrameWithHeaders).Headers()...)
+	*rest = b[:0]
 
 	hf := AcquireHeaderField()
 	defer ReleaseHeaderField(hf)
 
-	req := &strm.ctx.Request
-
-	var err error
+	var err, rejected error
 
 	for len(b) > 0 {
 		pb := b
 
-		b, err = sc.dec.nextField(hf, true, strm.blockFields, b)
+		b, err = sc.dec.nextField(hf, true, *nfields, b)
 		if err != nil {
 			// ErrUnexpectedSize means a header field spills past the bytes we
 			// currently have. That is only legal when more frames are coming:
@@ -1207,7 +1291,7 @@ func (sc *serverConn) handleHeaderFrame(strm *Stream, fr *FrameHeader) error {
 					pb = rest
 				}
 
-				strm.previousHeaderBytes = append(strm.previousHeaderBytes, pb...)
+				*rest = append(*rest, pb...)
 			} else {
 				err = NewGoAwayError(CompressionError, err.Error())
 			}
@@ -1218,106 +1302,121 @@ func (sc *serverConn) handleHeaderFrame(strm *Stream, fr *FrameHeader) error {
 		// A fragment can end in a dynamic table size update, in which case
 		// nextField has applied it and decoded no field: hf is as empty as it
 		// came out of the pool, and there is nothing to add to the request.
-		if strm.blockFields == 0 && hf.Empty() {
+		if *nfields == 0 && hf.Empty() {
 			continue
 		}
 
-		k, v := hf.KeyBytes(), hf.ValueBytes()
+		*nfields++
 
-		// RFC 7540 6.5.2 sizes a field as name + value + 32. The running total
-		// spans the whole header block, so splitting it over CONTINUATION
-		// frames does not get around the limit.
-		strm.headerListSize += len(k) + len(v) + 32
-		if sc.maxHeaderList > 0 && strm.headerListSize > sc.maxHeaderList {
-			return NewGoAwayError(EnhanceYourCalm, "header list exceeds the maximum size")
+		if strm != nil && rejected == nil {
+			rejected = sc.addRequestField(strm, hf)
 		}
+	}
 
-		// Header field names must not contain uppercase characters.
-		// https://httpwg.org/specs/rfc7540.html#rfc.section.8.1.2
-		if hasUpperCase(k) {
-			return NewResetStreamError(ProtocolError, "header field name contains uppercase characters")
-		}
-
-		if hf.IsPseudo() {
-			// All pseudo-header fields must appear before regular header fields.
-			// https://httpwg.org/specs/rfc7540.html#rfc.section.8.1.2.1
-			if strm.regularSeen {
-				return NewResetStreamError(ProtocolError, "pseudo-header field after regular header field")
-			}
-
-			switch {
-			case bytes.Equal(k, StringMethod):
-				if strm.pseudoMethod {
-					return NewResetStreamError(ProtocolError, "duplicate :method pseudo-header")
-				}
-				strm.pseudoMethod = true
-				req.Header.SetMethodBytes(v)
-			case bytes.Equal(k, StringPath):
-				if strm.pseudoPath {
-					return NewResetStreamError(ProtocolError, "duplicate :path pseudo-header")
-				}
-				strm.pseudoPath = true
-				strm.path = append(strm.path[:0], v...)
-				req.Header.SetRequestURIBytes(v)
-			case bytes.Equal(k, StringScheme):
-				if strm.pseudoScheme {
-					return NewResetStreamError(ProtocolError, "duplicate :scheme pseudo-header")
-				}
-				strm.pseudoScheme = true
-				strm.scheme = append(strm.scheme[:0], v...)
-			case bytes.Equal(k, StringAuthority):
-				if strm.pseudoAuthority {
-					return NewResetStreamError(ProtocolError, "duplicate :authority pseudo-header")
-				}
-				strm.pseudoAuthority = true
-				req.Header.SetHostBytes(v)
-				req.Header.AddBytesV("Host", v)
-			default:
-				// Any pseudo-header that is not a valid request pseudo-header
-				// (including response pseudo-headers such as :status) is invalid.
-				return NewResetStreamError(ProtocolError, fmt.Sprintf("invalid request pseudo-header %s", k))
-			}
-
-			strm.blockFields++
-			continue
-		}
-
-		// From here on it is a regular header field.
-		strm.regularSeen = true
-
-		// Connection-specific header fields are forbidden.
-		// https://httpwg.org/specs/rfc7540.html#rfc.section.8.1.2.2
-		if isConnectionSpecific(k) {
-			return NewResetStreamError(ProtocolError, "connection-specific header field")
-		}
-
-		if bytes.Equal(k, StringTE) && !bytes.Equal(v, StringTrailers) {
-			return NewResetStreamError(ProtocolError, "TE header field with a value other than trailers")
-		}
-
-		switch {
-		case bytes.Equal(k, StringUserAgent):
-			req.Header.SetUserAgentBytes(v)
-		case bytes.Equal(k, StringContentType):
-			req.Header.SetContentTypeBytes(v)
-		case bytes.Equal(k, StringContentLength):
-			if n, perr := parseUint(v); perr == nil {
-				if sc.maxRequestBodySize > 0 && n > sc.maxRequestBodySize {
-					return NewResetStreamError(EnhanceYourCalm, "request body is too large")
-				}
-
-				strm.contentLength = n
-				strm.hasContentLength = true
-			}
-			req.Header.AddBytesKV(k, v)
-		default:
-			req.Header.AddBytesKV(k, v)
-		}
-
-		strm.blockFields++
+	if err == nil {
+		err = rejected
 	}
 
 	return err
+}
+
+// addRequestField checks one decoded header field against RFC 7540 8.1.2 and
+// adds it to the request strm is building.
+func (sc *serverConn) addRequestField(strm *Stream, hf *HeaderField) error {
+	req := &strm.ctx.Request
+
+	k, v := hf.KeyBytes(), hf.ValueBytes()
+
+	// RFC 7540 6.5.2 sizes a field as name + value + 32. The running total
+	// spans the whole header block, so splitting it over CONTINUATION
+	// frames does not get around the limit.
+	strm.headerListSize += len(k) + len(v) + 32
+	if sc.maxHeaderList > 0 && strm.headerListSize > sc.maxHeaderList {
+		return NewGoAwayError(EnhanceYourCalm, "header list exceeds the maximum size")
+	}
+
+	// Header field names must not contain uppercase characters.
+	// https://httpwg.org/specs/rfc7540.html#rfc.section.8.1.2
+	if hasUpperCase(k) {
+		return NewResetStreamError(ProtocolError, "header field name contains uppercase characters")
+	}
+
+	if hf.IsPseudo() {
+		// All pseudo-header fields must appear before regular header fields.
+		// https://httpwg.org/specs/rfc7540.html#rfc.section.8.1.2.1
+		if strm.regularSeen {
+			return NewResetStreamError(ProtocolError, "pseudo-header field after regular header field")
+		}
+
+		switch {
+		case bytes.Equal(k, StringMethod):
+			if strm.pseudoMethod {
+				return NewResetStreamError(ProtocolError, "duplicate :method pseudo-header")
+			}
+			strm.pseudoMethod = true
+			req.Header.SetMethodBytes(v)
+		case bytes.Equal(k, StringPath):
+			if strm.pseudoPath {
+				return NewResetStreamError(ProtocolError, "duplicate :path pseudo-header")
+			}
+			strm.pseudoPath = true
+			strm.path = append(strm.path[:0], v...)
+			req.Header.SetRequestURIBytes(v)
+		case bytes.Equal(k, StringScheme):
+			if strm.pseudoScheme {
+				return NewResetStreamError(ProtocolError, "duplicate :scheme pseudo-header")
+			}
+			strm.pseudoScheme = true
+			strm.scheme = append(strm.scheme[:0], v...)
+		case bytes.Equal(k, StringAuthority):
+			if strm.pseudoAuthority {
+				return NewResetStreamError(ProtocolError, "duplicate :authority pseudo-header")
+			}
+			strm.pseudoAuthority = true
+			req.Header.SetHostBytes(v)
+			req.Header.AddBytesV("Host", v)
+		default:
+			// Any pseudo-header that is not a valid request pseudo-header
+			// (including response pseudo-headers such as :status) is invalid.
+			return NewResetStreamError(ProtocolError, fmt.Sprintf("invalid request pseudo-header %s", k))
+		}
+
+		return nil
+	}
+
+	// From here on it is a regular header field.
+	strm.regularSeen = true
+
+	// Connection-specific header fields are forbidden.
+	// https://httpwg.org/specs/rfc7540.html#rfc.section.8.1.2.2
+	if isConnectionSpecific(k) {
+		return NewResetStreamError(ProtocolError, "connection-specific header field")
+	}
+
+	if bytes.Equal(k, StringTE) && !bytes.Equal(v, StringTrailers) {
+		return NewResetStreamError(ProtocolError, "TE header field with a value other than trailers")
+	}
+
+	switch {
+	case bytes.Equal(k, StringUserAgent):
+		req.Header.SetUserAgentBytes(v)
+	case bytes.Equal(k, StringContentType):
+		req.Header.SetContentTypeBytes(v)
+	case bytes.Equal(k, StringContentLength):
+		if n, perr := parseUint(v); perr == nil {
+			if sc.maxRequestBodySize > 0 && n > sc.maxRequestBodySize {
+				return NewResetStreamError(EnhanceYourCalm, "request body is too large")
+			}
+
+			strm.contentLength = n
+			strm.hasContentLength = true
+		}
+		req.Header.AddBytesKV(k, v)
+	default:
+		req.Header.AddBytesKV(k, v)
+	}
+
+	return nil
 }
 
 // validateRequestPseudoHeaders enforces that a completed request header block
